@@ -63,6 +63,12 @@ def sm_source(rng):
     return sf
 
 
+def _both_notes_last(c):
+    """both spellings present, NOTES (the note data) last, every value a string: the serializer writes NOTES2 as an ordinary property"""
+    ks = list(c.keys())
+    return "NOTES" in c and "NOTES2" in c and ks[-1] == "NOTES" and all(isinstance(v, str) for v in c.values())
+
+
 def templates(rng):
     from simfile.ssc import SSCSimfile, SSCChart
     st = ct = None
@@ -158,7 +164,7 @@ def run(ctx):
             res.violation(case, "reading timing/notes of the result raised", impl=core.exc_name(e)); continue
         if not same or not notes_same:
             res.violation(case, "timing data or notes of the result differ from the source's"); continue
-        if objs.scan_safe(__import__("adapters.c02", fromlist=["x"]).ssc_params(out)) and all(objs.ssc_chart_ok(c) and list(c.keys())[-1] in ("NOTES", "NOTES2") for c in out.charts):
+        if objs.scan_safe(__import__("adapters.c02", fromlist=["x"]).ssc_params(out)) and all((objs.ssc_chart_ok(c) and list(c.keys())[-1] in ("NOTES", "NOTES2")) or (_both_notes_last(c)) for c in out.charts):
             try:
                 back = SSCSimfile(string=str(out))
                 if not (back == out) or any_dump(back) != any_dump(out):
